@@ -237,6 +237,28 @@ def input_faults(case, inputs, rng):
                     if a is not None:
                         named.setdefault(a, []).append((p, k))
         for a, lst in named.items():
+            # a ROOT array zipped with an INTERMEDIATE array that does not derive from it at all: resizing the root makes the
+            # request ill-formed just as well (and it has to be noticed before the producers of the intermediate run)
+            def anc(name, seen=None):
+                seen = set() if seen is None else seen
+                if name in case["roots"]:
+                    return {name}
+                out_ = set()
+                for g_ in case["funcs"]:
+                    if name in g_["outs"] and g_["name"] not in seen:
+                        seen.add(g_["name"])
+                        for q_ in g_["params"]:
+                            out_ |= anc(q_, seen)
+                return out_
+            inter = [(q, k) for q, k in lst if q not in case["roots"]]
+            for p_, k_ in lst:
+                if p_ in case["roots"] and inter and all(p_ not in anc(q) for q, _ in inter):
+                    arr = mapgen._obj(inputs[p_])
+                    pad = np.concatenate([arr, np.take(arr, [0], axis=k_)], axis=k_)
+                    d = dict(inputs)
+                    d[p_] = pad.tolist() if case["roots"][p_]["kind"] == "list" else pad
+                    yield "resized-axis-zipped-with-an-intermediate", f"{f['name']}:{p_}[{a}]", d, {}
+                    break
             # the zip partners must be two different ROOT arrays (an array derived from the resized root would simply
             # be resized with it, which is a valid request)
             lst = [(p, k) for p, k in lst if p in case["roots"]]
@@ -270,10 +292,40 @@ def input_faults(case, inputs, rng):
     yield "executor-with-parallel-false", "thread", inputs, {"executor": "THREAD", "parallel": False}
 
 
+def zip_with_intermediate_family(seed, i):
+    """Directed family: a root array w zipped (same axis name) with an intermediate y that derives from OTHER roots only."""
+    rng = random.Random(f"c12zip:{seed}:{i}")
+    sizes = {a: rng.randint(2, 3) for a in mapgen.AX}
+    a, b = rng.sample(mapgen.AX, 2)
+    two = rng.random() < 0.4
+    kd = lambda: rng.choice(["list", "ndarray"])  # noqa: E731
+    roots = {"x": {"axes": [a], "kind": kd()}, "w": {"axes": [a], "kind": kd()}}
+    if two:
+        roots["u"] = {"axes": [b], "kind": kd()}
+
+    def fn(name, outs, modes, out_axes):
+        ins = ", ".join(f"{p}[{', '.join(':' if m_ is None else m_ for m_ in m)}]" for p, m in modes.items())
+        return {"name": name, "params": list(modes), "outs": outs, "mapspec": f"{ins} -> " + ", ".join(f"{o}[{', '.join(out_axes)}]" for o in outs),
+                "modes": modes, "out_axes": list(out_axes), "internal": [], "internal_shape": [], "ret_list": False, "ishape_via": None}
+    if two:
+        ax0 = [a, b] if rng.random() < 0.5 else [b, a]
+        f0 = fn("f0", ["y0"], {"x": [a], "u": [b]}, ax0)
+        m1 = {"y0": list(ax0), "w": [a]} if rng.random() < 0.5 else {"w": [a], "y0": list(ax0)}
+        f1 = fn("f1", ["y1"], m1, ax0)
+    else:
+        f0 = fn("f0", ["y0"], {"x": [a]}, [a])
+        m1 = {"y0": [a], "w": [a]} if rng.random() < 0.5 else {"w": [a], "y0": [a]}
+        f1 = fn("f1", ["y1"], m1, [a])
+    funcs = [f0, f1]
+    if rng.random() < 0.4:
+        funcs.append(fn("f2", ["y2"], {"y1": list(f1["out_axes"])}, f1["out_axes"]))
+    return {"sizes": sizes, "roots": roots, "funcs": funcs}
+
+
 def run_map_batch(v, desc, scratch):
     keys = []
     for i in range(desc["start"], desc["start"] + desc["n"]):
-        case = mapgen.case_from_seed(desc["seed"], i, max_funcs=3)
+        case = zip_with_intermediate_family(desc["seed"], i) if i % 10 == 7 else mapgen.case_from_seed(desc["seed"], i, max_funcs=3)
         rng = random.Random(f"c12:{desc['seed']}:{i}")
         inputs = mapgen.make_inputs(case)
         folder = os.path.join(scratch, f"valid-{i}")
@@ -419,6 +471,15 @@ def run_call_batch(v, desc, scratch):
             shared = [r for r in roots if r in case["defaults"] and sum(1 for f in case["funcs"] if r in f["defaults"] and r not in f["bound"]) >= 2]
             if shared:
                 faults.append(("inconsistent-defaults-after-member-update", shared[0], {k: x for k, x in full.items() if k != shared[0]}))
+            # a back edge introduced AFTER construction, through a member function: an upstream function's root parameter is
+            # renamed to the name of this (downstream) output - the pipeline is cyclic now, every call must be refused
+            byn_ = {f["name"]: f for f in case["funcs"]}
+            ups = [byn_[n] for n in dict.fromkeys(ref["calls"]) if out not in byn_[n]["outs"]]
+            cyc = [(f, r) for f in ups for r in f["params"] if r in case["roots"] and r not in f["bound"]]
+            if cyc and i % 2 == 0:
+                f_up, r_up = cyc[i % len(cyc)]
+                elsewhere = any(r_up in g["params"] and r_up not in g["bound"] for g in (byn_[n] for n in set(ref["calls"])) if g is not f_up)
+                faults.append(("cycle-after-member-rename", (f_up["outs"][0], r_up), full if elsewhere else {k: x for k, x in full.items() if k != r_up}))
             # the same surplus / missing keywords given through the NESTED form of a scope that all functions share
             if i % 3 == 0:
                 faults.append(("added-keyword-in-scope-dict", "zz_extra", {"sc": {**full, "zz_extra": "q"}}))
@@ -439,6 +500,14 @@ def run_call_batch(v, desc, scratch):
                                 pp(f"sc.{out}", sc=dict(full))
                         except Exception:  # noqa: BLE001
                             v.count("scoped_valid_call_refused")
+                            continue
+                    if op == "cycle-after-member-rename":
+                        try:
+                            with quiet():
+                                pp = daggen.build_pipeline(case, log=log)
+                                pp[label[0]].update_renames({label[1]: out})
+                        except Exception:  # noqa: BLE001  (refusing the rename itself is fine as well)
+                            v.count("cycle_refused_at_the_rename")
                             continue
                     if op == "inconsistent-defaults-after-member-update":
                         with quiet():
@@ -486,16 +555,16 @@ def run_case(desc):
                                        "example": keys[:3]} if desc["start"] % 120 == 0 else None)
 
 
-OPS = ["duplicate-output", "output-named-like-own-parameter", "cycle", "inconsistent-defaults", "inconsistent-defaults-after-member-update", "mapspec-names-non-parameter",
+OPS = ["duplicate-output", "output-named-like-own-parameter", "cycle", "cycle-after-member-rename", "inconsistent-defaults", "inconsistent-defaults-after-member-update", "mapspec-names-non-parameter",
        "mapspec-names-wrong-output", "axis-name-swap-in-consumer", "axis-name-conflict-beside-reduction", "rank-change-in-consumer", "dropped-input", "added-input",
-       "resized-zipped-axis", "changed-input-rank", "scalar-for-mapped-input", "unknown-storage", "executor-with-parallel-false",
+       "resized-zipped-axis", "resized-axis-zipped-with-an-intermediate", "changed-input-rank", "scalar-for-mapped-input", "unknown-storage", "executor-with-parallel-false",
        "dropped-keyword", "added-keyword", "added-keyword-in-scope-dict"]
 
 
 def finalize(agg, tier, seed):
     floors = []
     for op in OPS:
-        need = 30 if op in ("inconsistent-defaults", "inconsistent-defaults-after-member-update", "resized-zipped-axis", "axis-name-swap-in-consumer", "rank-change-in-consumer") else 100
+        need = 30 if op in ("inconsistent-defaults", "inconsistent-defaults-after-member-update", "resized-zipped-axis", "resized-axis-zipped-with-an-intermediate", "axis-name-swap-in-consumer", "rank-change-in-consumer") else 100
         if agg.counters.get(f"op:{op}", 0) < need:
             floors.append(f"operator {op} applied {agg.counters.get(f'op:{op}', 0)} times (< {need})")
     if agg.counters.get("fresh_folder_faults", 0) < 500:
